@@ -137,6 +137,116 @@ def idsets(n, rnd):
     return [list(range(1, n + 1)), [2 ** 32 + 7 * i for i in range(1, n + 1)], [2 ** 64 - 1 - 3 * i for i in range(n)]]
 
 
+# ------------------------------------------------------------------------------------------ concurrent generations (DkgConc.tla)
+CONC_CFGS = [("rot-diff", {1, 2, 3}, "NamesDiff", "InitsA", "PartsRot"), ("ovl-same", {1, 2, 3}, "NamesSame", "InitsA", "PartsOverlap"),
+             ("four-diff", {1, 2, 3, 4}, "NamesDiff", "InitsB", "PartsFour"), ("opp-same", {1, 2}, "NamesSame", "InitsC", "PartsOpp"),
+             ("rot-same", {1, 2, 3}, "NamesSame", "InitsA", "PartsRot"), ("ovl-diff", {1, 2, 3}, "NamesDiff", "InitsA", "PartsOverlap"), ("opp-diff", {1, 2}, "NamesDiff", "InitsC", "PartsOpp")]
+CONC_INV = ["TypeOK", "NoDeadlock", "Agreement", "MutexReleased", "NoSessionAfterSuccess", "SessionsSane", "OwnSession", "DifferentNamesBothSucceed"]
+
+
+def conc_model_phase(tier, wd, info):
+    """DkgConc.tla: two generations at the same time on overlapping instances - every interleaving of their messages under the
+    instances' process mutexes (held across the contribution swaps of an execute).  Shipped design: no deadlock, both end, success
+    => the generation's own account on all its participants; each design mutant must be killed."""
+    base = dict(ContribTo="higher", SessionKey="name", PrepareOverwrites=False, Gens=Raw("<- G2"))
+    n = 0
+    for nm, I, names, inits, parts in CONC_CFGS[:4 if tier == "quick" else 7]:
+        c = dict(base, I=I, NameOf=Raw("<- " + names), InitOf=Raw("<- " + inits), PartsOf=Raw("<- " + parts))
+        r = tlc("MCDkgConc", make_cfg(c, invariants=CONC_INV, deadlock=False), wd, name="DkgConc_" + nm, timeout=600)
+        require_ok(r, "DkgConc(%s)" % nm)
+        info["states"] += r.distinct
+        info["transitions"] += r.generated
+        n += 1
+        if tier != "quick" or nm in ("rot-diff", "ovl-same"):
+            r = tlc("MCDkgConc", make_cfg(c, spec="FairSpec", properties=["Termination"], deadlock=False), wd, name="DkgConcLive_" + nm, timeout=600)
+            require_ok(r, "DkgConc liveness(%s)" % nm)
+            info["states"] += r.distinct
+            info["transitions"] += r.generated
+    killed = []
+    for m, (nm, I, names, inits, parts) in ((dict(ContribTo="all"), CONC_CFGS[0]), (dict(SessionKey="instance"), CONC_CFGS[0]), (dict(PrepareOverwrites=True), CONC_CFGS[1])):
+        c = dict(base, I=I, NameOf=Raw("<- " + names), InitOf=Raw("<- " + inits), PartsOf=Raw("<- " + parts))
+        c.update(m)
+        rm = tlc("MCDkgConc", make_cfg(c, invariants=CONC_INV[1:], deadlock=False), wd, name="DkgConc_mut", timeout=600)
+        require_killed(rm, "DkgConc mutant %s" % m)
+        killed.append(dict(mutant=m, killed_by=[rm.violated]))
+        info["mutants"].append(dict(mutant=m, module="DkgConc", killed_by=[rm.violated]))
+    return dict(configurations=n, mutants=killed)
+
+
+def conc_gens_phase(tier, seed, wd, info, verdict):
+    """Two or three generations requested at the same time of different instances of one real in-process cluster (different names
+    and the same name; full and partial overlap; messages delayed by seeded random times so that the interleavings vary).  What each
+    client is told and what every instance then holds is judged per generation by DkgTrace (Agreement: success => every listed
+    participant holds that key).  A generation that never ends, or generations under DIFFERENT names that make each other fail,
+    contradict DkgConc.tla and are recorded as drift of the model (no listed property speaks about them)."""
+    scs = []
+    k = 0
+    reps = 3 if tier == "quick" else 12
+    shapes = [([1, 2, 3], [(1, 3, 2, "DW/ca"), (3, 3, 2, "DW/cb")]),                       # different names, every instance in both
+              ([1, 2, 3], [(1, 2, 2, "DW/cs"), (3, 2, 2, "DW/cs")]),                       # the same name, two of three each
+              ([1, 2, 3, 4], [(1, 3, 2, "DW/ca"), (4, 3, 2, "DW/cb")]),                    # partial overlap
+              ([1, 2, 3], [(1, 3, 2, "DW/cs"), (2, 3, 2, "DW/cs")]),                       # the same name, every instance in both
+              ([1, 2, 3], [(1, 3, 3, "DW/ca"), (2, 3, 2, "DW/cb"), (3, 2, 2, "DW/cc")]),   # three at once
+              ([5, 9, 2 ** 40, 7], [(5, 2, 2, "DW/ca"), (9, 3, 2, "DW/ca"), (7, 4, 3, "DW/cb")])]
+    for ids, gens in shapes:
+        for rep in range(reps):
+            k += 1
+            scs.append(dict(id="C12-conc-%d" % k, ids=ids, n=0, t=0, initiator=ids[0], account="DW/unused", generate=False, jitter_us=(0, 300, 2500)[rep % 3] + rep,
+                            conc_gens=[dict(initiator=i_, n=n_, t=t_, account=a_) for i_, n_, t_, a_ in gens]))
+    by = run_parallel(scs, wd, "c12conc")
+    lines, index, gmeta = [], [], {}
+    nok = nfail = 0
+    drift = []
+    for sc in scs:
+        evs = by.get(sc["id"])
+        if evs is None:
+            raise Inconclusive("scenario %s produced no events" % sc["id"])
+        outs = {e["g"]: e for e in evs if e["ev"] == "ConcOutcome"}
+        if len(outs) != len(sc["conc_gens"]):
+            raise Inconclusive("scenario %s: %d of %d concurrent generations reported" % (sc["id"], len(outs), len(sc["conc_gens"])))
+        crashed = [e["crashed"] for e in evs if e["ev"] == "End"][0] if any(e["ev"] == "End" for e in evs) else []
+        names = [g_["account"] for g_ in sc["conc_gens"]]
+        for gi, g_ in enumerate(sc["conc_gens"]):
+            o = outs[gi]
+            gid = "%s/g%d" % (sc["id"], gi)
+            start = len(lines) + 1
+            lines.append(dict(ev="Begin", sc=gid, n=g_["n"], t=g_["t"], probe=False))
+            lines.append(clean(dict(ev="Outcome", ok=o["ok"], n=g_["n"], t=g_["t"], hung=bool(o["hung"]), message=o.get("message", ""), pubkey=o.get("pubkey", ""),
+                                    participants=o.get("participants") or [], faults_hit=[])))
+            for e in evs:
+                if e["ev"] == "ConcHolds" and e["g"] == gi:
+                    c_ = clean(dict(e, ev="Holds"))
+                    c_.pop("g", None)
+                    lines.append(c_)
+            lines.append(dict(ev="End", sc=gid, crashed=crashed or []))
+            index.append((start, len(lines), gid))
+            gmeta[gid] = dict(scenario=sc, generation=g_)
+            nok += bool(o["ok"])
+            nfail += not o["ok"]
+            if o["hung"]:
+                drift.append("%s: the generation never ended (no answer to the client within 40 s)" % gid)
+            if not o["ok"] and names.count(g_["account"]) == 1 and not o["hung"]:
+                drift.append("%s: a generation failed although no other generation used its name: %s" % (gid, o.get("message", "")))
+        if crashed:
+            drift.append("%s: instance(s) %s died" % (sc["id"], crashed))
+    if nok < 6:
+        raise Inconclusive("only %d concurrent generations succeeded: the agreement check would be vacuous" % nok)
+    ok, violated, pos, extra = validate("DkgTrace", lines, ["Agreement", "ThresholdRule"], wd, name="DkgTraceConc")
+    tr = extra if ok else extra[0]
+    info["states"] += tr.distinct
+    info["transitions"] += tr.generated
+    if not ok:
+        gid = locate(index, pos)
+        seg = [lines[a - 1:b] for a, b, s_ in index if s_ == gid][0]
+        verdict.violation("%s:concurrent:%s" % (violated, extra[1][:80]),
+                          "generations requested at the same time (%s, %s): real run rejected by DkgTrace invariant %s %s" % (gid, gmeta[gid]["scenario"]["conc_gens"], violated, extra[1]),
+                          dict(scenario=gmeta[gid]["scenario"], trace=seg[:40], invariant=violated, module="DkgTrace", conc=True))
+    if drift and not verdict.violations:
+        # the model of concurrent generations no longer describes the code; nothing of this is a statement of C12
+        print("DRIFT (DkgConc.tla): " + "; ".join(drift[:4]))
+    return dict(scenarios=len(scs), generations=nok + nfail, succeeded=nok, failed=nfail, drift=drift[:10])
+
+
 # ------------------------------------------------------------------------------------------ C12
 def run_c12(tier, seed, wd, info, verdict):
     rnd = random.Random(seed)
@@ -198,7 +308,9 @@ def run_c12(tier, seed, wd, info, verdict):
             scs.append(sc)
             meta[sid] = sc
             nprior += 1
+    conc_model = conc_model_phase(tier, wd, info)
     by = run_parallel(scs, wd, "c12")
+    conc = conc_gens_phase(tier, seed, wd, info, verdict)
     # clusters of REAL dirk binaries: each instance a process of the shipped program with its own wallet store, certificate and
     # configuration file, talking to its peers through the repository's own gRPC sender and receiver over mutual TLS
     bnts = [(2, 2), (3, 2), (3, 3), (4, 3), (3, 1), (3, 4), (4, 2)] if tier == "quick" else [(n, t) for n in range(2, 6) for t in range(1, n + 2)]
@@ -258,7 +370,7 @@ def run_c12(tier, seed, wd, info, verdict):
     prior_ok = sum(1 for evs_ in taken if any(e["ev"] == "Prior" and e["ok"] for e in evs_))
     if prior_ok * 2 < nprior:
         raise Inconclusive("only %d of %d earlier generations of the same name succeeded" % (prior_ok, nprior))
-    return dict(scenarios=len(scs), successful_generations=nok, name_already_taken=dict(scenarios=nprior, earlier_generation_succeeded=prior_ok,
+    return dict(scenarios=len(scs), successful_generations=nok, concurrent_generations=dict(model=conc_model, replay=conc), name_already_taken=dict(scenarios=nprior, earlier_generation_succeeded=prior_ok,
                 second_generation_succeeded=sum(1 for evs_ in taken if any(e["ev"] == "Outcome" and e["ok"] for e in evs_))),
                 generations_on_clusters_of_dirk_binaries=len(bscs), of_which_successful=nbin, trace_events=len(lines),
                 sample=lines[index[0][0] - 1:index[0][1]][:8])
@@ -791,6 +903,34 @@ def replay(prop, path):
     wd = workdir(prop + "-replay")
     try:
         sc = obj["scenario"]
+        if obj.get("conc"):
+            # timing-dependent: the same concurrent generations are requested again, several times
+            for attempt in range(6):
+                evs, rc, err = run_dkgdrv([dict(sc, jitter_us=sc.get("jitter_us", 0) + attempt * 211)], wd, "replay%d" % attempt)
+                outs = {e["g"]: e for e in evs if e["ev"] == "ConcOutcome"}
+                crashed = [e["crashed"] for e in evs if e["ev"] == "End"][0] if any(e["ev"] == "End" for e in evs) else []
+                lines = []
+                for gi, g_ in enumerate(sc["conc_gens"]):
+                    o = outs.get(gi)
+                    if o is None:
+                        continue
+                    lines.append(dict(ev="Begin", sc="g%d" % gi, n=g_["n"], t=g_["t"], probe=False))
+                    lines.append(clean(dict(ev="Outcome", ok=o["ok"], n=g_["n"], t=g_["t"], hung=bool(o["hung"]), message=o.get("message", ""), pubkey=o.get("pubkey", ""),
+                                            participants=o.get("participants") or [], faults_hit=[])))
+                    for e in evs:
+                        if e["ev"] == "ConcHolds" and e["g"] == gi:
+                            c_ = clean(dict(e, ev="Holds"))
+                            c_.pop("g", None)
+                            lines.append(c_)
+                    lines.append(dict(ev="End", sc="g%d" % gi, crashed=crashed or []))
+                ok, violated, pos, extra = validate("DkgTrace", lines, ["Agreement", "ThresholdRule"], wd, name="DkgTraceConcReplay%d" % attempt)
+                if not ok:
+                    for ln in lines:
+                        print(json.dumps(ln)[:300])
+                    print("VIOLATION property=%s replay=%s" % (prop, path))
+                    return 1
+            print("replay: 6 runs accepted")
+            return 0
         if obj.get("storm"):
             # timing-dependent: the same storm is run again, several times
             for attempt in range(4):
